@@ -180,6 +180,20 @@ def check_rec(O, S, leafmap, m, labmode, stubspec, pname):
             order2 = list(snode2[S.root].traverse("preorder"))
             if snapshot(lay2, order2, make_gene_id(lay2, order2)) != snaps[orient]:
                 return ("not_deterministic", f"{orient}: two computations give different layouts")
+            # ... and on the SAME reconciliation object (the first computation must leave nothing behind: no reordered
+            # children, no features on the trees that change a second run)
+            stubs.install(stubs.Stub(stubspec[0], stubspec[1]))
+            lay_again = layout_mod.compute(rec, params)
+            if snapshot(lay_again, order, make_gene_id(lay_again, order)) != snaps[orient]:
+                return ("not_deterministic", f"{orient}: computing the layout a second time on the same object gives a different layout")
+            if orient == "V":
+                rec_first, order_first = rec, order
+        # the object laid out vertically (twice) is now laid out horizontally: same result as on a fresh object
+        stubs.install(stubs.Stub(stubspec[0], stubspec[1]))
+        lay_cross = layout_mod.compute(rec_first, DrawParams(orientation=R.ORIENT["H"], **pkw))
+        if snapshot(lay_cross, order_first, make_gene_id(lay_cross, order_first)) != snaps["H"]:
+            return ("not_deterministic", "horizontal layout of an object already laid out vertically differs from the horizontal "
+                                         "layout of a fresh object")
         # ---- orientation symmetry: horizontal == transpose(vertical computed with swapped sizes)
         rec3, lay3, _, _, snode3 = compute(O, S, leafmap, m, labmode, "V", stubspec, pkw, swap=True)
         order3 = list(snode3[S.root].traverse("preorder"))
